@@ -478,3 +478,60 @@ func init() {
 		mutant{"evolve-link-failure-leaves-the-new-node", "pkg/engine/ops.go", "\t\t// Undo: deleting the new node also removes the edges copied to it.\n\t\te.VDelete(indexName, newID)\n", "", "EFF-composite", "Engine.VEvolve:step#1:Engine.VAdd:later-rejection-is-undone"},
 	)
 }
+
+func init() {
+	addMutants("C04",
+		mutant{"benign:vacuum-still-points-here-as-early-continue", "pkg/core/hnsw/optimizer.go", "\t\t\tif cur, still := o.index.externalToInternalID[extID]; still && cur == deadID {\n\t\t\t\tdelete(o.index.externalToInternalID, extID)\n\t\t\t}\n", "\t\t\tcurrent, present := o.index.externalToInternalID[extID]\n\t\t\tif present && deadID == current {\n\t\t\t\tdelete(o.index.externalToInternalID, extID)\n\t\t\t}\n", "silent", ""},
+		mutant{"benign:restore-skips-tombstones-with-a-flag", "pkg/core/hnsw/hnsw_index.go", "\t\tif !node.Deleted.Load() {\n\t\t\th.externalToInternalID[node.Id] = internalID\n\t\t}\n\t\tnode.InternalID = internalID\n", "\t\ttombstone := node.Deleted.Load()\n\t\tif tombstone == false {\n\t\t\th.externalToInternalID[node.Id] = internalID\n\t\t}\n\t\tnode.InternalID = internalID\n", "silent", ""},
+	)
+}
+
+func init() {
+	addMutants("C09",
+		mutant{"benign:stats-decrement-behind-early-continue", "pkg/core/core.go", "\t\t\tif _, had := stats.DocLengths[nodeID]; had {\n\t\t\t\tstats.TotalDocLength -= int64(stats.DocLengths[nodeID])\n\t\t\t\tdelete(stats.DocLengths, nodeID)\n\t\t\t\tstats.TotalDocs--\n\t\t\t\tif stats.TotalDocs < 0 {\n\t\t\t\t\tstats.TotalDocs = 0\n\t\t\t\t}\n\t\t\t}\n\t\t\t// O(1) average from the incremental counter.\n", "\t\t\tdocLen, counted := stats.DocLengths[nodeID]\n\t\t\tif !counted {\n\t\t\t\tcontinue\n\t\t\t}\n\t\t\tstats.TotalDocLength -= int64(docLen)\n\t\t\tdelete(stats.DocLengths, nodeID)\n\t\t\tstats.TotalDocs--\n\t\t\tif stats.TotalDocs < 0 {\n\t\t\t\tstats.TotalDocs = 0\n\t\t\t}\n\t\t\t// O(1) average from the incremental counter.\n", "silent", ""},
+	)
+}
+
+func init() {
+	addMutants("C19",
+		mutant{"benign:kvset-decode-error-through-a-bad-request-helper", "internal/server/http_handlers.go", "\tif err := s.decodeJSON(r, &req); err != nil {\n\t\ts.writeHTTPError(w, http.StatusBadRequest, err)\n\t\treturn\n\t}\n\n\tif err := s.Engine.KVSet(key, []byte(req.Value)); err != nil {", "\terr := s.decodeJSON(r, &req)\n\tif err != nil {\n\t\tstatus := http.StatusBadRequest\n\t\ts.writeHTTPError(w, status, err)\n\t\treturn\n\t}\n\n\tif err := s.Engine.KVSet(key, []byte(req.Value)); err != nil {", "silent", ""},
+		mutant{"benign:kvset-decodes-in-a-switch", "internal/server/http_handlers.go", "\tif err := s.decodeJSON(r, &req); err != nil {\n\t\ts.writeHTTPError(w, http.StatusBadRequest, err)\n\t\treturn\n\t}\n\n\tif err := s.Engine.KVSet(key, []byte(req.Value)); err != nil {", "\tswitch err := s.decodeJSON(r, &req); {\n\tcase err != nil:\n\t\ts.writeHTTPError(w, http.StatusUnprocessableEntity, err)\n\t\treturn\n\t}\n\n\tif err := s.Engine.KVSet(key, []byte(req.Value)); err != nil {", "silent", ""},
+	)
+	addMutants("C16",
+		mutant{"benign:kvset-decode-error-through-a-bad-request-helper", "internal/server/http_handlers.go", "\tif err := s.decodeJSON(r, &req); err != nil {\n\t\ts.writeHTTPError(w, http.StatusBadRequest, err)\n\t\treturn\n\t}\n\n\tif err := s.Engine.KVSet(key, []byte(req.Value)); err != nil {", "\terr := s.decodeJSON(r, &req)\n\tif err != nil {\n\t\tstatus := http.StatusBadRequest\n\t\ts.writeHTTPError(w, status, err)\n\t\treturn\n\t}\n\n\tif err := s.Engine.KVSet(key, []byte(req.Value)); err != nil {", "silent", ""},
+	)
+}
+
+func init() {
+	newRoute := mutant{"benign:new-read-route-and-new-write-route", "internal/server/http_handlers.go", "\tmux.HandleFunc(\"DELETE /kv/{key}\", s.handleKVDelete)\n", "\tmux.HandleFunc(\"DELETE /kv/{key}\", s.handleKVDelete)\n\tmux.HandleFunc(\"GET /kv-exists/{key}\", func(w http.ResponseWriter, r *http.Request) {\n\t\t_, found := s.Engine.KVGet(r.PathValue(\"key\"))\n\t\ts.writeHTTPResponse(w, http.StatusOK, map[string]bool{\"exists\": found})\n\t})\n\tmux.HandleFunc(\"POST /kv-touch/{key}\", func(w http.ResponseWriter, r *http.Request) {\n\t\tif err := s.Engine.KVSet(r.PathValue(\"key\"), []byte(\"1\")); err != nil {\n\t\t\ts.writeHTTPError(w, http.StatusInternalServerError, err)\n\t\t\treturn\n\t\t}\n\t\ts.writeHTTPResponse(w, http.StatusOK, map[string]string{\"status\": \"OK\"})\n\t})\n", "silent", ""}
+	addMutants("C16", newRoute)
+	addMutants("C19", newRoute)
+}
+
+// a benign extension that spans two files: a new journaled command with its writer and its replay arm
+func init() {
+	newCmd := mutant{Name: "benign:new-journaled-command-with-replay-arm", File: "pkg/engine/ops.go",
+		Old:  "// KVGet retrieves a value from the key-value store.\n",
+		New:  "// KVTouch marks a key as seen.\nfunc (e *Engine) KVTouch(key string) error {\n\tdefer e.writeGate.leave(e.writeGate.enter())\n\n\tcmd := persistence.FormatCommand(\"TOUCH\", []byte(key))\n\tif err := e.AOF.Write(cmd); err != nil {\n\t\treturn err\n\t}\n\te.DB.GetKVStore().Set(key, []byte(\"1\"))\n\tatomic.AddInt64(&e.dirtyCounter, 1)\n\treturn nil\n}\n\n// KVGet retrieves a value from the key-value store.\n",
+		Rule: "silent"}
+	moreEdits[newCmd.Name] = []edit{{"pkg/engine/recovery.go", "\t\tcase \"DEL\":\n\t\t\tif len(cmd.Args) == 1 {\n\t\t\t\tdelete(kvData, string(cmd.Args[0]))", "\t\tcase \"TOUCH\":\n\t\t\tif len(cmd.Args) == 1 {\n\t\t\t\tkvData[string(cmd.Args[0])] = []byte(\"1\")\n\t\t\t}\n\t\tcase \"DEL\":\n\t\t\tif len(cmd.Args) == 1 {\n\t\t\t\tdelete(kvData, string(cmd.Args[0]))"}}
+	for _, p := range []string{"C01", "C02", "C03", "C05", "C14"} {
+		addMutants(p, newCmd)
+	}
+}
+
+func init() {
+	addMutants("C01",
+		mutant{"new-journaled-command-without-replay-arm", "pkg/engine/ops.go", "// KVGet retrieves a value from the key-value store.\n", "// KVTouch marks a key as seen.\nfunc (e *Engine) KVTouch(key string) error {\n\tdefer e.writeGate.leave(e.writeGate.enter())\n\n\tcmd := persistence.FormatCommand(\"TOUCH\", []byte(key))\n\tif err := e.AOF.Write(cmd); err != nil {\n\t\treturn err\n\t}\n\te.DB.GetKVStore().Set(key, []byte(\"1\"))\n\treturn nil\n}\n\n// KVGet retrieves a value from the key-value store.\n", "CDC-1", "TOUCH"},
+	)
+	addMutants("C14",
+		mutant{"new-journaling-operation-outside-the-gate", "pkg/engine/ops.go", "// KVGet retrieves a value from the key-value store.\n", "// KVTouch marks a key as seen.\nfunc (e *Engine) KVTouch(key string) error {\n\tcmd := persistence.FormatCommand(\"SET\", []byte(key), []byte(\"1\"))\n\tif err := e.AOF.Write(cmd); err != nil {\n\t\treturn err\n\t}\n\te.DB.GetKVStore().Set(key, []byte(\"1\"))\n\treturn nil\n}\n\n// KVGet retrieves a value from the key-value store.\n", "ORD-9", "Engine.KVTouch:journal-inside-gate"},
+	)
+}
+
+func init() {
+	addMutants("C13",
+		mutant{"benign:kvget-explicit-unlock-on-each-return", "pkg/core/kv.go", "\ts.mu.RLock()\n\tdefer s.mu.RUnlock()\n\n\tvalue, found := s.data[key]\n\tif !found {\n\t\treturn nil, false\n\t}\n\treturn append([]byte(nil), value...), true\n", "\ts.mu.RLock()\n\tvalue, found := s.data[key]\n\tif !found {\n\t\ts.mu.RUnlock()\n\t\treturn nil, false\n\t}\n\tout := append([]byte(nil), value...)\n\ts.mu.RUnlock()\n\treturn out, true\n", "silent", ""},
+		mutant{"benign:kvget-through-a-locked-closure-helper", "pkg/core/kv.go", "func (s *KVStore) Get(key string) ([]byte, bool) {\n\ts.mu.RLock()\n\tdefer s.mu.RUnlock()\n\n\tvalue, found := s.data[key]\n\tif !found {\n\t\treturn nil, false\n\t}\n\treturn append([]byte(nil), value...), true\n}\n", "func (s *KVStore) withRead(f func()) {\n\ts.mu.RLock()\n\tdefer s.mu.RUnlock()\n\tf()\n}\n\nfunc (s *KVStore) Get(key string) (out []byte, found bool) {\n\ts.withRead(func() {\n\t\tvar value []byte\n\t\tif value, found = s.data[key]; found {\n\t\t\tout = append([]byte(nil), value...)\n\t\t}\n\t})\n\treturn out, found\n}\n", "silent", ""},
+	)
+}
